@@ -9,6 +9,7 @@ import (
 	"sort"
 
 	vmcommon "github.com/ElrondNetwork/elrond-vm-common"
+	"github.com/ElrondNetwork/elrond-vm-common/data/esdt"
 	"verif/harness/world"
 )
 
@@ -40,7 +41,13 @@ type Ledger struct {
 	FaultMode bool // C17: enumerate dependency faults of every successful step
 }
 
-func (d *Ledger) amt(x int64) []byte { return new(big.Int).Mul(big.NewInt(x), d.Scale).Bytes() }
+func (d *Ledger) amt(x int64) []byte {
+	b := new(big.Int).Mul(big.NewInt(x), d.Scale).Bytes()
+	if d.R != nil && d.R.Intn(25) == 0 {
+		b = append([]byte{0, 0}, b...) // non-minimal encoding of the same number
+	}
+	return b
+}
 
 func nb(n uint64) []byte { return new(big.Int).SetUint64(n).Bytes() }
 
@@ -106,6 +113,28 @@ func NewLedger(seed int64, traceNo int, profile string, t *world.Tracer) (*Ledge
 		acc := world.NewAccount(ai.Bytes, w.Shards[ai.Shard])
 		acc.Balance = new(big.Int).Mul(big.NewInt(int64(10+i)), d.Scale)
 		w.Shards[ai.Shard].Accounts[string(ai.Bytes)] = acc
+	}
+	// an account that already holds an NFT under (N, nonce 1) with another hash and other metadata (a credit onto it must be refused)
+	if traceNo%2 == 1 {
+		ai := w.Info(d.Users[len(d.Users)-1])
+		acc := w.Shards[ai.Shard].Accounts[string(ai.Bytes)]
+		e := &esdt.ESDigitalToken{Type: 1, Value: new(big.Int).Set(d.Scale), TokenMetaData: &esdt.MetaData{Nonce: 1, Name: []byte("foreign"), Hash: []byte("other-hash"), URIs: [][]byte{[]byte("x")}}}
+		b, _ := e.Marshal()
+		acc.Storage["ELRONDesdtN\x01"] = b
+	}
+	// the second NFT token starts with a creator whose counter sits just below a byte boundary (nonces 255/256, 65535/65536 are reached by a few creates)
+	{
+		cr := d.Users[(traceNo+1)%len(d.Users)]
+		ai := w.Info(cr)
+		acc := w.Shards[ai.Shard].Accounts[string(ai.Bytes)]
+		ctr := []uint64{254, 255, 510, 65534, 65535, 16777214, 0, 3}[(traceNo+int(seed))%8]
+		if ctr > 0 {
+			acc.Storage["ELRONDnonce"+string(d.NFT[1])] = nb(ctr)
+		}
+		rl := &esdt.ESDTRoles{Roles: [][]byte{[]byte("ESDTRoleNFTCreate"), []byte("ESDTRoleNFTAddQuantity"), []byte("ESDTRoleNFTBurn"), []byte("ESDTRoleNFTAddURI"), []byte("ESDTRoleNFTUpdateAttributes")}}
+		rb, _ := rl.Marshal()
+		acc.Storage["ELRONDroleesdt"+string(d.NFT[1])] = rb
+		d.Creator[string(d.NFT[1])] = cr
 	}
 	// payability: contracts "b" are not payable, one user on the last shard errors
 	for s := 0; s < n; s++ {
@@ -405,6 +434,31 @@ func (d *Ledger) otherAcct(not string) string {
 	return d.Users[0]
 }
 
+// flaggedAccts lists accounts that hold a frozen entry (interesting destinations and senders).
+func (d *Ledger) flaggedAccts() []string {
+	var r []string
+	pf := []byte("ELRONDesdt")
+	for _, ai := range d.W.Addrs {
+		if ai.Shard < 0 || ai.Shard >= len(d.W.Shards) || ai.Kind == "junk" {
+			continue
+		}
+		acc := d.W.Shards[ai.Shard].Peek(ai.Bytes)
+		if acc == nil {
+			continue
+		}
+		for _, k := range acc.SortedKeys() {
+			if !bytes.HasPrefix([]byte(k), pf) {
+				continue
+			}
+			if e, ok := world.DecodeEntry(acc.Storage[k]); ok && len(e.Properties) == 2 && e.Properties[0]&1 == 1 {
+				r = append(r, ai.Name)
+				break
+			}
+		}
+	}
+	return r
+}
+
 func (d *Ledger) someAmount(have int64) int64 {
 	switch d.R.Intn(10) {
 	case 0:
@@ -542,6 +596,9 @@ func (d *Ledger) actTransfer() {
 		from, tok, have = d.anyAcct(), d.anyTok(), 0
 	}
 	to := d.otherAcct(from)
+	if fr := d.flaggedAccts(); len(fr) > 0 && d.chance(30) {
+		to = fr[d.R.Intn(len(fr))]
+	}
 	if d.chance(3) {
 		to = from
 	}
@@ -587,7 +644,16 @@ func (d *Ledger) nftHoldings() []holding {
 }
 
 func (d *Ledger) destFor(from string) []byte {
-	switch d.R.Intn(40) {
+	n := 40
+	if d.Profile == "payable" {
+		n = 16
+	}
+	if fr := d.flaggedAccts(); len(fr) > 0 && d.chance(35) {
+		if a := fr[d.R.Intn(len(fr))]; a != from {
+			return d.W.Addr(a)
+		}
+	}
+	switch d.R.Intn(n) {
 	case 0:
 		return d.W.Addr(from)
 	case 1:
@@ -994,6 +1060,49 @@ func (d *Ledger) ownerOf(sc string) string {
 	return n
 }
 
+// actRogue: a well-formed privileged operation attempted by an unprivileged caller (user or contract on its own shard).
+func (d *Ledger) actRogue() {
+	caller := d.anyAcct()
+	target := caller
+	if d.chance(50) {
+		// another account on the same shard
+		for i := 0; i < 10; i++ {
+			o := d.otherAcct(caller)
+			if d.shardOfName(o) == d.shardOfName(caller) {
+				target = o
+				break
+			}
+		}
+	}
+	var tok []byte
+	if d.chance(50) {
+		tok = d.pickTok(d.Fung)
+	} else {
+		tok = d.pickTok(d.NFT)
+	}
+	var c *world.Call
+	switch d.R.Intn(8) {
+	case 0:
+		c = d.call("ESDTNFTCreateRoleTransfer", caller, target, tok, nb(uint64(d.R.Intn(3))))
+	case 1:
+		c = d.call("ESDTNFTCreateRoleTransfer", caller, target, tok, d.W.Addr(d.otherAcct(target)))
+	case 2:
+		c = d.call("ESDTSetRole", caller, target, tok, []byte(d.pick(AllRoles)))
+	case 3:
+		c = d.call("ESDTUnSetRole", caller, target, tok, []byte(d.pick(AllRoles)))
+	case 4:
+		c = d.call([]string{"ESDTFreeze", "ESDTUnFreeze", "ESDTWipe"}[d.R.Intn(3)], caller, target, tok)
+	case 5:
+		c = &world.Call{Fn: []string{"ESDTPause", "ESDTUnPause"}[d.R.Intn(2)], Caller: d.W.Addr(caller), Rcpt: world.SysAddr, Args: [][]byte{tok}, Gas: d.gas(), Value: big.NewInt(0)}
+	case 6:
+		c = d.call("ESDTTransfer", caller, target, tok, d.amt(1)) // nothing privileged: a transfer of a token the caller may not hold
+		c.CT = vmcommon.CallType(d.R.Intn(4))
+	default:
+		c = d.call("SetUserName", caller, d.pick(d.Users), []byte("rogue"))
+	}
+	d.record("exec", d.shardOfName(caller), c)
+}
+
 func (d *Ledger) actOracle() {
 	a := d.anyAcct()
 	v := []string{"yes", "no", "err", "yes"}[d.R.Intn(4)]
@@ -1065,13 +1174,14 @@ func (d *Ledger) Setup() {
 // DefaultWeights returns the action mix of a profile.
 func DefaultWeights(profile string) map[string]int {
 	w := map[string]int{"issue": 4, "setrole": 5, "unsetrole": 2, "transfer": 14, "nft": 12, "multi": 12, "deliver": 18, "mintburn": 8, "esdtburn": 3,
-		"create": 7, "nftrole": 8, "freeze": 6, "pause": 4, "handover": 3, "kv": 4, "acct": 4, "oracle": 2, "malformed": 5, "sched": 0, "epoch": 1}
+		"create": 7, "nftrole": 8, "freeze": 6, "pause": 4, "handover": 3, "kv": 4, "acct": 4, "oracle": 2, "malformed": 5, "sched": 0, "epoch": 1, "rogue": 4}
 	switch profile {
 	case "transfer":
 		w["transfer"], w["nft"], w["multi"], w["deliver"] = 20, 20, 20, 25
 	case "supply":
 		w["mintburn"], w["create"], w["nftrole"], w["esdtburn"], w["freeze"] = 20, 12, 16, 8, 10
 	case "roles":
+		w["rogue"] = 12
 		w["setrole"], w["unsetrole"], w["mintburn"], w["create"], w["nftrole"], w["handover"], w["acct"] = 10, 8, 14, 10, 16, 6, 10
 	case "freeze":
 		w["freeze"], w["pause"] = 16, 12
@@ -1147,6 +1257,8 @@ func (d *Ledger) Step() {
 		d.actOracle()
 	case "malformed":
 		d.actMalformed()
+	case "rogue":
+		d.actRogue()
 	case "sched":
 		d.actSched()
 	case "epoch":
